@@ -42,6 +42,11 @@ fn inject(src: &mut Sources, rng: &mut Rng) -> &'static str {
     let cuts: Vec<usize> = cuts.into_iter().filter(|c| *c >= after_use).collect();
     let at = if cuts.is_empty() { text.len() } else { *rng.pick(&cuts) };
     let (what, snippet): (&'static str, String) = match rng.below(12) {
+        0 if rng.chance(1, 2) => {
+            // a byte order mark in front of an otherwise valid file: a lexical error for every front end
+            src.files[k].1.insert(0, '\u{feff}');
+            return "lexical";
+        }
         0 => ("lexical", "let zzlex = § num;\n".into()),
         1 => ("lexical", "let zzlex = 123456789012345678901234567890;\n".into()),
         2 => ("syntax", "let let zzsyn = ;\n".into()),
